@@ -203,3 +203,16 @@ VARIANTS += [
       "        #: the executors\n", "fire", "D17.11",
       "seed C17-executors-iterable-consumed-by-check"),
 ]
+
+VARIANTS += [
+    V("shuffle-generator-kept-in-decoder",
+      "moptipyapps/binpacking2d/instgen/inst_decoding.py",
+      "        default_rng(int.from_bytes(x.tobytes())).shuffle(items)",
+      "        self.space.rng.shuffle(items)", "fire", "D17.12",
+      "seed C17-shuffle-generator-kept-in-decoder (generator on a field)"),
+    V("silent-shuffle-generator-local",
+      "moptipyapps/binpacking2d/instgen/inst_decoding.py",
+      "        default_rng(int.from_bytes(x.tobytes())).shuffle(items)",
+      "        rng = default_rng(int.from_bytes(x.tobytes()))\n"
+      "        rng.shuffle(items)", "silent", "", "local generator"),
+]
